@@ -42,3 +42,14 @@ Record config := mkConfig {
   countPerSenderThreshold : Z;
   numItemsToPreemptivelyEvict : nat
 }.
+
+(** txcache/config.go, ConfigSourceMe.verify (the name is never empty here): the set of configurations NewTxCache accepts.
+    Arguments in the order NumChunks, NumBytesThreshold, NumBytesPerSenderThreshold, CountThreshold,
+    CountPerSenderThreshold, NumItemsToPreemptivelyEvict (all uint32). *)
+Definition verify_config (numChunks numBytes numBytesPerSender count countPerSender batch : N) : bool :=
+  negb ((numChunks <? 1) || (128 <? numChunks)) &&
+  negb ((numBytesPerSender <? 1) || (33554432 <? numBytesPerSender)) &&
+  negb (countPerSender <? 1) &&
+  negb ((numBytes <? 4) || (1073741824 <? numBytes)) &&
+  negb (count <? 4) &&
+  negb (batch <? 1).
